@@ -65,9 +65,9 @@ class DocGen:
 
     def charref(self):
         r = self.r
-        cp = r.choice([0x20, 0x41, 0x3c, 0x26, 0x22, 0x27, 0x9, 0xa, 0xd, 0xe9, 0x3042, 0x10000, 0x10ffff, 0xfffd, 0xd7ff, 0x1, 0x0])
+        cp = r.choice([0x20, 0x41, 0x3c, 0x26, 0x22, 0x27, 0x9, 0xa, 0xd, 0xe9, 0x3042, 0x10000, 0x10ffff, 0xfffd, 0xd7ff, 0x85])
         if r.random() < 0.04:
-            cp = r.choice([0xd800, 0xdfff, 0x110000, 0xffffffff, 0x100000000, 99999999999])
+            cp = r.choice([0x0, 0x1, 0x8, 0xb, 0x1f, 0xfffe, 0xffff, 0xd800, 0xdfff, 0x110000, 0xffffffff, 0x100000000, 99999999999])
             self.f('charref:nonchar')
         self.f('charref')
         if r.random() < 0.5:
